@@ -64,6 +64,10 @@ type MemoryInstance struct {
 	ownerModuleEngine ModuleEngine
 
 	expBuffer experimental.LinearMemory
+
+	// users counts the module instances bound to this memory: the one that defines it and every one that imports
+	// it. The buffer of a custom allocator is freed when the last of them is closed.
+	users atomic.Int32
 }
 
 // NewMemoryInstance creates a new instance based on the parameters in the SectionIDMemory.
@@ -93,7 +97,7 @@ func NewMemoryInstance(memSec *Memory, allocator experimental.MemoryAllocator, m
 	} else {
 		buffer = make([]byte, minBytes, capBytes)
 	}
-	return &MemoryInstance{
+	ret := &MemoryInstance{
 		Buffer:            buffer,
 		Min:               memSec.Min,
 		Cap:               memoryBytesNumToPages(uint64(cap(buffer))),
@@ -102,6 +106,8 @@ func NewMemoryInstance(memSec *Memory, allocator experimental.MemoryAllocator, m
 		expBuffer:         expBuffer,
 		ownerModuleEngine: moduleEngine,
 	}
+	ret.users.Store(1)
+	return ret
 }
 
 // Definition implements the same method as documented on api.Memory.
